@@ -812,6 +812,7 @@ def check(program, rep):
         B = C06._Burst(program)
         C06.r3_once(program, rep, B)
     rep.guard("C06-R3", once_rule, program, rep)
+    rep.guard("C06-R3", C06.r3_closures, program, rep)
     rep.floor("C07-R1", 25)
     return finish(rep, program, EXPLANATION, NOT_DECIDED,
                   trusted=["slice-length and floor-division axioms of the "
